@@ -79,6 +79,9 @@ EXTRA = {
     "C13": " 3-D shapes are drawn and every slice of the cube is judged against its own respondents; drawn warm-up reads.",
     "C14": " 3-D shapes are drawn and the scale statistics of every slice of the cube are judged against that slice's respondents.",
     "C15": " 3-D shapes are drawn and the shares of every slice are judged against that slice's respondents.",
+    "C03": " On categorical-date columns the smoothed proportions are read before the plain ones in half of the cases.",
+    "C17": " The fraction is also required from a second cube and a cube set built from the SAME response object.",
+    "C20": " Every unsmoothed output read after its smoothed form on the transformed partition is compared with its value on a partition where it was read first.",
     "C18": " set-reuse also hands the responses over as JSON text.",
     "C19": " Dictionaries that list several unmatched references before the live key, and several spellings of one item before another live item, are drawn as well.",
 }
